@@ -300,8 +300,21 @@ def t_process_batch(E, cancellable=False):
                 E.assume(sub(c, EXC['Exception'].term))
                 ex = VExc(c, (), info={'origin': 'batch-function'})
                 st['batch_exc'] = val_of_exc(E, ex)
+                targets_after_the_stream()
                 raise PyExc(ex)
             return tag == 'yield'
+
+        def targets_after_the_stream():
+            # when the loop is left (the stream ended or failed) its targets hold the LAST element -- if there was one: a
+            # batch function may yield nothing, or fail before its first result
+            from pyvc.engine import _stored_names
+            names = _stored_names([stn.target])
+            if not all(nm in fr.loop_assigned for nm in names):
+                return
+            if E.choose([('yielded_nothing', None), ('yielded_something', None)], 'stream length') == 'yielded_something':
+                E.assign(stn.target, VVal(E.fresh('stream_elem_last', ValS)), fr)
+            for nm in names:
+                fr.loop_assigned.discard(nm)
 
         def bind():
             el = E.fresh('stream_elem', ValS)
@@ -312,19 +325,8 @@ def t_process_batch(E, cancellable=False):
             st['ans0_key'] = z3.If(z3.And(pre_has, pair_key(el) == k0), pair_key(el), st['ans0_key'])
             E.assign(stn.target, VVal(el), fr)
         def on_exit(how):
-            # after the loop the targets hold the LAST element -- if there was one: a batch function may yield nothing
-            if how != 'exit':
-                return
-            from pyvc.engine import _stored_names
-            names = _stored_names([stn.target])
-            if E.choose([('yielded_nothing', None), ('yielded_something', None)], 'stream length') == 'yielded_nothing':
-                for nm in names:
-                    fr.loop_assigned.discard(nm)
-            else:
-                if all(nm in fr.loop_assigned for nm in names):
-                    E.assign(stn.target, VVal(E.fresh('last_stream_elem', ValS)), fr)
-                    for nm in names:
-                        fr.loop_assigned.discard(nm)
+            if how == 'exit':
+                targets_after_the_stream()
         E.cut_loop(stn, fr, inv, havoc, test=test, bind=bind, label='stream', on_exit=on_exit)
 
     def loop_foreach(E_, stn, fr, kind, src):
@@ -1023,6 +1025,14 @@ def t_call(E):
                     E.oblige(Qn + '/forget.entry_present_when_deleted', z3.BoolVal(False), props={'C11', 'C09'})
                     E.throw('KeyError')
                 return VStub('dict.pop', pop_now, attrs={'rc': True})
+            if obj is st['rc'] and name in ('popitem', 'clear'):
+                def not_by_key(E_, a, k):
+                    """popitem() / clear(): evict whatever entry comes to hand -- some other key's, maybe a pending one"""
+                    E.oblige(Qn + '/forget.evicts_this_key_only', z3.BoolVal(False), props={'C11', 'C09', 'C04'},
+                             detail='%s() on the retention cache removes entries of OTHER keys (the youngest one / all '
+                                    'of them): a pending request of another key is forgotten, this key stays' % name)
+                    raise PathEnd()
+                return VStub('dict.' + name, not_by_key, attrs={'rc': True})
             if obj is st['rc'] and name == 'get':
                 def get(E_, a, k):
                     key_ok(a[0], node)
@@ -1242,10 +1252,15 @@ def t_call(E):
                 E.oblige(Qn + '/callback.forgets_exactly_once', z3.BoolVal(forgot2 == 1), props={'C09', 'C11'})
                 E.w['owed'] = E.w['owed'] - 1
                 check_inv('after done-callback')
+            # on the path of a cancelled first caller (the forget was left to a done-callback) these two also carry C09:
+            # "changes nothing for other callers" includes the later caller inside the retention window
+            via_cb = {'C09'} if cbs else set()
             if st.get('timers'):
-                E.oblige(Qn + '/forget.timer_only_when_retention_positive', st['retention'] > 0, props={'C11', 'C15'})
+                E.oblige(Qn + '/forget.timer_only_when_retention_positive', st['retention'] > 0,
+                         props={'C11', 'C15'} | via_cb)
             if st.get('deleted'):
-                E.oblige(Qn + '/forget.immediate_only_when_retention_is_zero', z3.Not(st['retention'] > 0), props={'C11', 'C15'})
+                E.oblige(Qn + '/forget.immediate_only_when_retention_is_zero', z3.Not(st['retention'] > 0),
+                         props={'C11', 'C15'} | via_cb)
         else:
             E.oblige(Qn + '/share.nothing_enqueued_when_the_key_has_an_entry', z3.BoolVal(len(enq) == 0),
                      props={'C11', 'C04'})
